@@ -479,6 +479,84 @@ def pipeline(ns, res, r, nhist):
         checker.check_exprs = orig
 
 
+def adopted_histories(ns, res, r, nhist):
+    """The input of a round is what the strategy adopted in the round
+    before: the answer of a worker (pickled), re-duplicated.  After a
+    simplification that inserted *one* replacement at several places, a
+    simplification that designates - by identity - a node inside a later
+    copy must change that copy and nothing else."""
+    import pickle
+    Simp = ns.mutator_utils.Simplification
+
+    def at(exprs, path):
+        n = exprs[path[0]]
+        for i in path[1:]:
+            n = n.data[i]
+        return n
+
+    def replace_at(nested, path, new):
+        if len(path) == 1:
+            return nested[:path[0]] + [new] + nested[path[0] + 1:]
+        out = list(nested)
+        out[path[0]] = replace_at(nested[path[0]], path[1:], new)
+        return out
+
+    for _ in range(nhist):
+        cur = [refmodel.build(ns.Node, t) for t in rand_items(r)]
+        for step in range(r.randint(2, 4)):
+            nodes_ = all_nodes(cur)
+            # (A) one replacement object at k >= 2 pairwise non-nested places
+            cand = list(nodes_)
+            r.shuffle(cand)
+            chosen = []
+            for n, p in cand:
+                if len(chosen) >= r.randint(2, 4):
+                    break
+                if not any(nested(p, q) for _, q in chosen):
+                    chosen.append((n, p))
+            if len(chosen) < 2:
+                break
+            rep_t = r.choice([['f', 'u', ['g', 'v']], ['h', ['k', 'w'], 'z'],
+                              ['m', 'n']])
+            rep = refmodel.build(ns.Node, rep_t)
+            simp = Simp({n.id: rep for n, _ in chosen}, [])
+            try:
+                worker_side = pickle.loads(pickle.dumps(cur))
+                answer = pickle.loads(pickle.dumps(
+                    ns.mutator_utils.apply_simp(worker_side, simp)))
+                adopted = ns.nodes.reduplicate(answer)
+            except Exception as e:  # noqa
+                res.violation(f'adopted-history-raised-{type(e).__name__}',
+                              f'adopting a sharing simplification raised '
+                              f'{e!r}', {})
+                return
+            # (B) designate a node inside the *last* copy (in document
+            # order) by identity
+            last = max(p for _, p in chosen)
+            sub = all_nodes([at(adopted, last)])
+            _, rel = r.choice(sub)
+            q = last + tuple(rel[1:])
+            target = at(adopted, q)
+            before = refmodel.to_nested_list(adopted)
+            want = replace_at(before, list(q), 'MARK')
+            res.count('evaluations')
+            res.count('adopted_history_steps')
+            got = ns.mutator_utils.apply_simp(
+                adopted, Simp({target.id: ns.Node('MARK')}, []))
+            got_n = refmodel.to_nested_list(got)
+            if got_n != want:
+                res.violation(
+                    'adopted-history:identity-designates-another-position',
+                    f'after a replacement was inserted at {len(chosen)} '
+                    f'places and the result adopted (pickled, '
+                    f're-duplicated), the simplification keyed by the '
+                    f'identity of the node at {q} changed another position: '
+                    f'got {got_n!r}, expected {want!r}',
+                    {'input': before, 'path': list(q), 'got': got_n})
+                return
+            cur = adopted
+
+
 def shard(args):
     from vlib import dd
     ns = dd.load()
@@ -489,6 +567,7 @@ def shard(args):
         return res.to_dict()
     if args.get('kind') == 'pipeline':
         pipeline(ns, res, r, args['n'])
+        adopted_histories(ns, res, r, args['n'])
         return res.to_dict()
     for i in range(args['n']):
         items = rand_items(r)
@@ -562,6 +641,8 @@ def run(ctx):
     for m in MODES:
         if ctx.counters.get(f'mode_{m}', 0) == 0:
             ctx.inconclusive_because(f'mode {m} never evaluated')
+    if ctx.counters.get('adopted_history_steps', 0) == 0:
+        ctx.inconclusive_because('no adopted history was driven')
     for e in ('ddmin', 'hierarchical'):
         if ctx.counters.get(f'pipeline_{e}', 0) == 0:
             ctx.inconclusive_because(f'{e} worker never driven')
@@ -628,6 +709,9 @@ def replay(data):
         w = c['witness']
         if 'history' in w:
             replay_pipeline(ns, res, w)
+            continue
+        if str(data.get('key', '')).startswith('adopted-history'):
+            adopted_histories(ns, res, common.rng('c11-replay'), 200)
             continue
         if 'rules' in w and 'opts' in w:
             # timing-dependent: repeat the real run a few times
